@@ -1276,11 +1276,15 @@ class Compiler:
     def visit_Target(self, node):
         backup = "__previous_i18n_target_%s" % mangle(id(node))
         tmp = "__tmp_%s" % mangle(id(node))
+        # The target language is also kept in the variable context,
+        # where expressions (e.g. attribute translations) look it up
         return template("BACKUP = target_language", BACKUP=backup) + \
             self._engine(node.expression, store(tmp)) + \
             [ast.Assign([store("target_language")], load(tmp))] + \
+            template("econtext['target_language'] = tmp", tmp=tmp) + \
             self.visit(node.node) + \
-            template("target_language = BACKUP", BACKUP=backup)
+            template("target_language = BACKUP", BACKUP=backup) + \
+            template("econtext['target_language'] = BACKUP", BACKUP=backup)
 
     def visit_TxContext(self, node):
         backup = "__previous_i18n_context_%s" % mangle(id(node))
